@@ -53,15 +53,11 @@ def ref_admit(specs, node, t):
             return ('leaf', 'VNone')
         return ref_admit(specs, node, t[1])
     if t[0] == 'union':
-        got = []
-        for m in t[1]:
-            try:
-                got.append(ref_admit(specs, node, m))
-            except Reject:
-                pass
-        if len(got) != 1:
+        # a Union member is chosen by RECOGNITION (which does not look at unknown keys); exactly one must recognise the node
+        rec = [m for m in t[1] if rec_count(specs, node, m) > 0]
+        if len(rec) != 1 or rec_count(specs, node, rec[0]) != 1:
             raise Reject('not exactly one union member')
-        return got[0]
+        return ref_admit(specs, node, rec[0])
     if t[0] == 'list':
         if not isinstance(node, yaml.SequenceNode) or node.tag != T + 'seq':
             raise Reject('expected list')
@@ -153,6 +149,50 @@ def plain(node):
 
 class OutOfScope(Exception):
     pass
+
+
+def rec_count(specs, node, t):
+    """How many types the documented recognition rules find for the node at type t: 0, 1 or 2 (= several)."""
+    if t in ('str', 'int', 'float', 'bool'):
+        return int(isinstance(node, yaml.ScalarNode) and node.tag == T + t)
+    if t[0] == 'optional':
+        return min(2, int(isinstance(node, yaml.ScalarNode) and node.tag == T + 'null') + rec_count(specs, node, t[1]))
+    if t[0] == 'union':
+        return min(2, sum(rec_count(specs, node, m) for m in t[1]))
+    if t[0] == 'list':
+        if not isinstance(node, yaml.SequenceNode):
+            return 0
+        for x in node.value:
+            c = rec_count(specs, x, t[2])
+            if c != 1:
+                return c
+        return 1
+    if t[0] == 'dict':
+        if not isinstance(node, yaml.MappingNode):
+            return 0
+        for k, v in node.value:
+            if rec_count(specs, k, 'str') != 1:
+                return 0
+            c = rec_count(specs, v, t[3])
+            if c != 1:
+                return c
+        return 1
+    s = loadcase.spec_of(specs, t[1])
+    if s['kind'] == 'enum':
+        return int(isinstance(node, yaml.ScalarNode) and node.tag in (T + 'str', T + 'bool'))
+    if not isinstance(node, yaml.MappingNode):
+        return 0
+    keys = [k.value if isinstance(k, yaml.ScalarNode) else None for k, _ in node.value]
+    for p in s['params']:
+        for name in (p['name'], p['name'].replace('_', '-')):
+            if name in keys:
+                if keys.count(name) > 1 or rec_count(specs, node.value[keys.index(name)][1], p['type']) == 0:
+                    return 0
+                break
+        else:
+            if p['required']:
+                return 0
+    return 1
 
 
 def canon_loaded(v):
